@@ -23,7 +23,7 @@ RULE = ("hypothesis-generated values (derandomised from the seed) from the lossl
         "x level; non-trivial = not a bare scalar None/bool")
 ASSUMPTIONS = ["ints bounded by CPython's int<->str digit limit", "datetimes: naive, whole milliseconds, TZ=UTC",
                "values a serializer refuses are only required to be refused on every path alike"]
-REQUIRED_REACH = ["codec_core_ok", "codec_ext_ok", "wire_ok", "wire_batch_ok", "wire_stream_ok", "wire_compressed_request", "wire_compressed_reply", "wire_with_annotations", "codec_memoryview_same"]
+REQUIRED_REACH = ["shards_with_serpent_bytes_repr", "codec_core_ok", "codec_ext_ok", "wire_ok", "wire_batch_ok", "wire_stream_ok", "wire_compressed_request", "wire_compressed_reply", "wire_with_annotations", "codec_memoryview_same"]
 SHARD_TIMEOUT = {"quick": 220, "thorough": 2400}
 RAISED = object()
 
@@ -39,6 +39,11 @@ def plan(tier, seed):
         for comp in (False, True):
             for i in range(nwire):
                 shards.append({"kind": "wire", "servertype": st, "compression": comp, "i": i, "n": per_wire})
+    # the serpent option SERPENT_BYTES_REPR (bytes travel as bytes literals instead of base64 dicts): the mapping changes, and is again the
+    # same for arguments and results
+    shards.append({"kind": "codec", "i": 100, "n": per_codec // 3, "bytes_repr": True})
+    for st in ("thread", "multiplex"):
+        shards.append({"kind": "wire", "servertype": st, "compression": st == "thread", "i": 100, "n": per_wire, "bytes_repr": True})
     return shards
 
 
@@ -93,7 +98,8 @@ def unsign_complex_zero(v):
 def check_codec(sers, name, x, is_core, rec):
     ser = sers[name]
     A, K, A2, R = codec_paths(ser, x)
-    pay = ("codec", name, x, is_core)
+    import Pyro5 as _P5
+    pay = ("codec", name, x, is_core) + (("serpent-bytes-repr",) if _P5.config.SERPENT_BYTES_REPR else ())
     show = lambda o: ("raises %s: %s" % (o[1], o[2])) if is_raised(o) else core.short(o, 200)
     mA, mK, mR = codec_paths_memoryview(ser, x)
     if not (agree(mA, A) and agree(mK, K) and agree(mR, R)):
@@ -134,7 +140,11 @@ def check_codec(sers, name, x, is_core, rec):
         rec.violation("documented-mapping-broken:%s" % name, "%s: %s arrives as %s, expected a list" % (name, type(x).__name__, type(R).__name__), pay)
     if name == "serpent" and type(x) is bytes:
         import base64
-        if not (type(R) is dict and R.get("encoding") == "base64" and base64.b64decode(R.get("data", "")) == x):
+        import Pyro5
+        if Pyro5.config.SERPENT_BYTES_REPR:
+            if type(R) is not bytes or R != x:
+                rec.violation("documented-mapping-broken:serpent", "serpent with SERPENT_BYTES_REPR: bytes %r arrive as %s, expected the same bytes" % (x, show(R)), pay)
+        elif not (type(R) is dict and R.get("encoding") == "base64" and base64.b64decode(R.get("data", "")) == x):
             rec.violation("documented-mapping-broken:serpent", "serpent: bytes %r arrive as %s, expected the base64 dict" % (x, show(R)), pay)
 
 
@@ -215,7 +225,7 @@ def check_wire(fx, svc, name, x, is_core, pad, rec, seq):
     P = fx.P
     key = "k%d" % seq
     svc.store[key] = [pad, x]
-    pay = ("wire", name, x, is_core, fx.servertype, P.config.COMPRESSION, pad)
+    pay = ("wire", name, x, is_core, fx.servertype, P.config.COMPRESSION, pad) + (("serpent-bytes-repr",) if P.config.SERPENT_BYTES_REPR else ())
     show = lambda o: ("raises %s: %s" % (o[1], o[2])) if is_raised(o) else core.short(o, 200)
     sent = [pad, x]
     # every other case travels in messages that carry annotations (request: client context; reply: Daemon.annotations())
@@ -342,6 +352,9 @@ def run_shard(shard, rec):
     sers = P.serializers.serializers
     seed = rec.seed * 100 + shard["i"]
     r = gen.rng(rec.seed, "c01", shard["kind"], shard["i"])
+    P.config.SERPENT_BYTES_REPR = bool(shard.get("bytes_repr"))
+    if shard.get("bytes_repr"):
+        rec.count("shards_with_serpent_bytes_repr")
     if shard["kind"] == "codec":
         def core_case(x):
             for name in fixture.SERIALIZERS:
@@ -439,6 +452,9 @@ def replay(payload, rec):
     P = fixture.pyro()
     sers = P.serializers.serializers
     rec.case(("replay", repr(payload)[:200]))
+    if payload[-1] == "serpent-bytes-repr":
+        P.config.SERPENT_BYTES_REPR = True
+        payload = payload[:-1]
     if payload[0] == "codec":
         _, name, x, is_core = payload
         print("replay codec %s: paths -> %r" % (name, [core.short(o, 150) for o in codec_paths(sers[name], x)]))
